@@ -126,6 +126,18 @@ func ruleC18Shared(c *Ctx, r *Result) {
 	}
 	stop := func(f *ssa.Function) bool { return !libPackage(fnPkgPath(f)) }
 	bg := c.Reach(roots, stop)
+	// foreground: everything reachable from exported functions and methods that are not goroutine targets
+	var fgRoots []*ssa.Function
+	isRoot := map[*ssa.Function]bool{}
+	for _, r0 := range roots {
+		isRoot[r0] = true
+	}
+	for _, fn := range c.LibFuncs() {
+		if fn.Parent() == nil && fn.Object() != nil && fn.Object().Exported() && !isRoot[fn] {
+			fgRoots = append(fgRoots, fn)
+		}
+	}
+	fg := c.Reach(fgRoots, func(f *ssa.Function) bool { return stop(f) || isRoot[f] })
 	type acc struct {
 		bgR, bgW, fgR, fgW int
 		unlocked           []string
@@ -183,15 +195,20 @@ func ruleC18Shared(c *Ctx, r *Result) {
 				a = &acc{firstPos: c.InstrPos(in)}
 				fields[key] = a
 			}
-			switch {
-			case inBG && write:
-				a.bgW++
-			case inBG:
-				a.bgR++
-			case write:
-				a.fgW++
-			default:
-				a.fgR++
+			inFG := fg[fn] || !inBG
+			if inBG {
+				if write {
+					a.bgW++
+				} else {
+					a.bgR++
+				}
+			}
+			if inFG {
+				if write {
+					a.fgW++
+				} else {
+					a.fgR++
+				}
 			}
 			isLocked := locked[in]
 			if !isLocked {
@@ -202,7 +219,9 @@ func ruleC18Shared(c *Ctx, r *Result) {
 			}
 			if !isLocked {
 				side := "foreground"
-				if inBG {
+				if inBG && inFG {
+					side = "both sides"
+				} else if inBG {
 					side = "background"
 				}
 				a.unlocked = append(a.unlocked, side+" "+c.Name(fn)+" at "+c.InstrPos(in))
